@@ -2366,6 +2366,12 @@ func builtinIsType(env *LEnv, args *LVal) *LVal {
 		if typesym != env.Runtime.Registry.Lang+":typedef" {
 			return env.Errorf("first argument is not a valid type specifier: %v", typesym)
 		}
+		// The tag alone does not make a well-formed typedef: a program can
+		// mint a value tagged lisp:typedef itself.  Check the shape before
+		// indexing into it.
+		if !isTypedefShape(typespec) {
+			return env.Errorf("first argument is not a valid type specifier: %v", typesym)
+		}
 		typesym = typespec.Cells[0].Cells[0].Str
 	}
 	t := GetType(v)
